@@ -91,6 +91,11 @@ def input_trees(r):
                                                       D("dst")], ["--glob", "-r", "g/**", "dst"])
     out["glob-doublestar-over-self-links-hidden-deep"] = ([D("g"), F("g/a.txt", 10, 1), D("g/.cache"), D("g/.cache/x"), F("g/.cache/x/b.txt", 10, 2), {"p": "g/.cache/x/.up1", "k": "l", "target": "../.."},
                                                            {"p": "g/.cache/x/.up2", "k": "l", "target": ".."}, {"p": "g/.cache/.here", "k": "l", "target": "."}, D("dst")], ["--glob", "g/**/*.txt", "dst"])
+    # FIFOs whose modes are wider than the file-creation mask allows (0666 under 022, 0644 under 077): whatever is done about the
+    # missing bits, a FIFO is never opened
+    out["fifo-wider-than-umask-022"] = ([D("src"), F("src/a", 100, 1), {"p": "src/p1", "k": "fifo", "mode": 0o666}, {"p": "src/p2", "k": "fifo", "mode": 0o777}, F("src/z", 10, 2)], ["-r", "src", "dst"])
+    out["fifo-wider-than-umask-077"] = ([D("src"), F("src/a", 100, 1), {"p": "src/p1", "k": "fifo", "mode": 0o644}, F("src/z", 10, 2), D("dst"), D("dst/src"), {"p": "dst/src/p1", "k": "fifo", "mode": 0o600}],
+                                        ["-r", "src", "dst"])
     out["removed-cwd-relative-destination"] = ([D("src"), F("src/a", 100, 1), D("src/sub"), F("src/sub/b", 10, 2)], ["-r", "@ROOT@/src", "newdir"])
     out["removed-cwd-relative-source"] = ([D("src"), F("src/a", 100, 1)], ["-r", "../src", "@ROOT@/dst"])
     out["removed-cwd-backup"] = ([D("src"), F("src/a", 100, 1), D("dst"), D("dst/src"), F("dst/src/a", 5, 2)], ["--backup", "numbered", "-r", "@ROOT@/src", "@ROOT@/dst"])
@@ -122,6 +127,8 @@ def gen_cases(tier, seed):
                     for rep in range(reps):
                         p = dict(sch)
                         p["sched_seed"] = r.randrange(1 << 30)
+                        if name.startswith("fifo-wider-than-umask-"):
+                            p["umask"] = int(name.rsplit("-", 1)[1], 8)
                         if name.startswith("glob-doublestar-over-self-links"):
                             p["max_steps"] = 150000      # (an ordinary expansion of this tree takes a few hundred calls)
                         noise = r.choice([[], [], [], ["--no-progress"], ["-v"], ["-vv"], ["--fsync"], ["--backup", "numbered"], ["--reflink", "never"]])
